@@ -12,7 +12,7 @@ Lemma rel_emit e s ss t l ev :
   rel e s ss -> inv (e_hash e) t -> t_order t = l -> rel e (emit s t ev) (semit ss l ev).
 Proof.
   intros [_ [_ [Hs Ho]]] Hi Hl. unfold rel, emit, semit. simpl.
-  repeat split; try (apply Hi); auto; congruence.
+  split; [exact Hi|]. split; [exact Hl|]. split; congruence.
 Qed.
 
 Lemma step_rel e s ss o : perm_ok (e_perm e) -> rel e s ss -> rel e (step e s o) (spec_step ss o).
@@ -52,7 +52,7 @@ Lemma run_equals_spec e ops : perm_ok (e_perm e) -> transcript (run e ops) = spe
 Proof.
   intros Hp. unfold transcript, spec_transcript, run, spec_run.
   assert (H0 : rel e init sinit).
-  { unfold rel, init, sinit. simpl. repeat split; try reflexivity. apply inv_empty. }
+  { unfold rel, init, sinit. simpl. split; [apply inv_empty|]. repeat split. }
   destruct (run_rel e Hp ops init sinit H0) as [_ [_ [Hs Ho]]]. rewrite Hs, Ho. reflexivity.
 Qed.
 
